@@ -24,9 +24,9 @@ CHECKS = {
          "repetition, predicates consume nothing): for every table meeting the stated conditions (atoms whose meaning depends on the byte offset only, void actions), every input, "
          "apply mode, rewind mode and fuel, the result and the consumed prefix are the ones Sem derives (C01_sound, by induction on fuel over closure lemmas for all rule kinds); Sem is "
          "deterministic (so 'exactly'); consequently the outcome is independent of apply mode, requested rewind mode, attached void actions, control visibility and fuel (C01_independent). "
-         "Totality: for tables certified by the analysis model (problems = 0, C11) Sem derives an outcome for every rule from every state, some fuel suffices, and every returning run returns exactly that outcome (C01_total). The model is tied to /repo by the full-trace differential run; the "
+         "Completeness: whenever Sem derives an outcome for a rule at an offset, the run from there returns for every sufficiently large fuel, in every mode, with that outcome (C01_complete, by induction on the fuel of the terminating evaluation that semEvalE_complete extracts from the derivation; no termination certificate assumed), so returning runs and derivations coincide (C01_iff) and the evaluator decides the relation (C01_evaluator_decides). Totality: for tables certified by the analysis model (problems = 0, C11) Sem derives an outcome for every rule from every state, some fuel suffices, and every returning run returns exactly that outcome (C01_total). The model is tied to /repo by the full-trace differential run; the "
          "independent oracle is the spec evaluator semEval (proved sound for Sem) against the real result."),
-   note=GENERAL_NOTE + " The completeness direction (Sem derives an outcome => the run terminates) is so far only explored (every corpus case on which semEval terminates is compared), not proved.",
+   note=GENERAL_NOTE + " Both directions are proved (soundness C01_sound, completeness C01_complete); what the formalism leaves open — a grammar/input without any derivation, i.e. a matcher that does not terminate — is C11's subject.",
    technique="Lean 4 refinement proof (model => PEG big-step semantics) + determinism; differential correspondence; spec-evaluator oracle"),
  'C03': dict(engine='matcher-model', design_ref='DESIGN.md §6 C03',
    text=("Proof (Lean 4), partial by nature of the property: in the model every read goes through peek_char(off) and every advance through bump*, both flagging any access outside the current window "
@@ -62,7 +62,7 @@ CHECKS = {
  'C09': dict(engine='matcher-model', design_ref='DESIGN.md §6 C09',
    text=("Proof (Lean 4): every hand-optimised match() body (until, rep, rep_min_max, rep_opt, if_then_else, strict, star_strict, plus, partial, star_partial, rematch, must, if_must/opt_must, "
          "try_catch_*, enable/disable) refines, in the PEG formalism with labelled failures, the documented expansion of its rule (Spec.expandKind): same accepted inputs, same consumed prefix, "
-         "same blamed rule (C09_refines, C09_exact); where the reference gives two expansions they are proved equivalent (C09_two_forms_*). Alias rules (list*, pad*, minus, rep_min, rep_max, "
+         "same blamed rule (C09_refines, C09_exact), and conversely accepts everything its expansion accepts: whenever the formalism derives an outcome for the expansion the hand-optimised body returns it (C09_complete); where the reference gives two expansions they are proved equivalent (C09_two_forms_*). Alias rules (list*, pad*, minus, rep_min, rep_max, "
          "star_must, if_must_else, keyword, identifier, shebang, ...) are the same C++ type as their expansion; the resolver expands them like the using-declarations and the differential run checks it."),
    note=GENERAL_NOTE + " expandKind is transcribed by hand from doc/Rule-Reference.md; a mismatch with the code shows up in the semEval oracle, a mismatch with the reference in the documentation tie: every '[Equivalent] to' line of the reference whose rules the resolver knows (55 of 144 entries; the rest are ICU rules, non-rule template arguments or 'equivalent, but' remarks) is instantiated with concrete rules and both sides are evaluated by the formal evaluator on every short input. string / istring / bytes / contrib rep_one_min_max equal their documented sequences (C09_string_expansion, C09_istring_expansion, C09_bytes_expansion, C09_rep_one_min_max); ranges, rep_string, separated_seq and if_then are resolved to one / string / seq / if_then_else nodes by the generator (differential run) and are not covered by a theorem of their own.",
    technique="Lean 4 refinement proof of each optimised rule body into the PEG semantics of its documented expansion; differential correspondence; spec-evaluator oracle; documentation tie (the reference's equivalences evaluated in the formal semantics)"),
